@@ -6,7 +6,10 @@ blocks; everything else is replaced by blank lines (line count preserved).  `let
 mutable borrow of a tracked variable (`&mut x`, `x.*_mut()`), or that bind a closure mentioning one, add the bound
 names to the tracked set (an alias must not escape the slice).  The last expression of a block (no `;`) is never dropped.
 
-What is lost: everything the dropped statements do.  What is sound to conclude from the slice: frame facts about the
+A dropped statement that contains `?` is replaced by `if nondet__() { return Err(err_any__()); }` so that its early exit
+stays a path of the slice; statements containing return / continue / break are always kept.
+
+What is lost: everything else the dropped statements do.  What is sound to conclude from the slice: frame facts about the
 tracked variables (a dropped statement cannot name them, so it cannot read or write them), NOT facts about values that
 flow through dropped statements (a kept statement that uses a name defined by a dropped `let` does not compile, and the
 unit ends UNDECIDED).
@@ -134,12 +137,17 @@ def slice_text(text, tracked_rx):
                 if last and not semi:
                     stats['kept'] += 1   # tail expression: value of the block
                     continue
+                if any(t.kind == 'ident' and t.text in ('return', 'continue', 'break') for t in toks[a:b + 1]):
+                    stats['kept'] += 1   # control flow is never dropped
+                    continue
                 stats['dropped'] += 1
-                drops.append((toks[a].start, toks[b].end))
+                # a dropped statement that can leave the function early through `?` keeps that exit (with an arbitrary error)
+                early = any(t.kind == 'punct' and t.text == '?' for t in toks[a:b + 1])
+                drops.append((toks[a].start, toks[b].end, early))
     walk(1, len(toks) - 1)
     out = src
-    for s, e in sorted(drops, reverse=True):
-        out = out[:s] + '\n' * out[s:e].count('\n') + out[e:]
+    for s, e, early in sorted(drops, reverse=True):
+        out = out[:s] + ('if nondet__() { return Err(err_any__()); }' if early else '') + '\n' * out[s:e].count('\n') + out[e:]
     if wrapped:
         out = out[1:-1]
     return out, stats['dropped'], stats['kept'], sorted(tracked)
